@@ -56,7 +56,7 @@ def expr(node: ast.AST) -> str:
         if isinstance(node.op, ast.FloorDiv):
             return f"(Z.div {expr(node.left)} {_posint(node.right)})"
         fail(node, "operator not accepted in an alignment expression")
-    if (isinstance(node, ast.Call) and isinstance(node.func, ast.Name) and node.func.id == "int"
+    if (isinstance(node, ast.Call) and ast.unparse(node.func) in ("int", "math.trunc", "trunc")
             and len(node.args) == 1 and not node.keywords):
         a = node.args[0]
         if isinstance(a, ast.BinOp) and isinstance(a.op, ast.Div):
@@ -90,8 +90,10 @@ def _align(tree) -> dict[str, tuple[str, str]]:
     if sorted(names) != sorted(list(VARS) + ["alignment"]):
         fail(fn, "_set_relative_position parameters")
     body = body_no_doc(fn)
+    if len(body) in (1, 2) and isinstance(body[0], ast.Match):
+        return _align_match(fn, body)
     if len(body) != 1 or not isinstance(body[0], ast.If):
-        fail(fn, "_set_relative_position body must be one if/elif chain")
+        fail(fn, "_set_relative_position body must be one if/elif chain or one match statement")
     node, res = body[0], {}
     while True:
         t = node.test
@@ -116,6 +118,38 @@ def _align(tree) -> dict[str, tuple[str, str]]:
         fail(node, "chain must end with `else: raise ...`")
     if sorted(res) != sorted(MEMBERS.values()):
         fail(fn, "every member needs a branch")
+    return res
+
+
+def _align_match(fn, body) -> dict[str, tuple[str, str]]:
+    """`match alignment: case Alignment.<m>: return <y>, <x> ... [case _: raise ...]` (+ an optional final raise)."""
+    m = body[0]
+    if not (isinstance(m.subject, ast.Name) and m.subject.id == "alignment"):
+        fail(m, "match subject must be `alignment`")
+    if len(body) == 2 and not isinstance(body[1], ast.Raise):
+        fail(body[1], "only a `raise` may follow the match statement")
+    res = {}
+    for case in m.cases:
+        pat = case.pattern
+        if case.guard is not None:
+            fail(case.pattern, "guarded case not accepted")
+        if isinstance(pat, ast.MatchAs) and pat.pattern is None:          # case _:
+            if len(case.body) != 1 or not isinstance(case.body[0], ast.Raise):
+                fail(pat, "the default case must raise")
+            continue
+        if not (isinstance(pat, ast.MatchValue) and isinstance(pat.value, ast.Attribute)
+                and isinstance(pat.value.value, ast.Name) and pat.value.value.id == "Alignment"):
+            fail(pat, "case pattern must be `Alignment.<member>`")
+        mem = pat.value.attr
+        if mem not in MEMBERS or MEMBERS[mem] in res:
+            fail(pat, "unknown or repeated member")
+        if len(case.body) != 1 or not isinstance(case.body[0], ast.Return) \
+                or not isinstance(case.body[0].value, ast.Tuple) or len(case.body[0].value.elts) != 2:
+            fail(pat, "case must be a single `return <y>, <x>`")
+        y, x = case.body[0].value.elts
+        res[MEMBERS[mem]] = (expr(y), expr(x))
+    if sorted(res) != sorted(MEMBERS.values()):
+        fail(fn, "every member needs a case")
     return res
 
 
@@ -160,10 +194,19 @@ def _delims(repo: Path) -> list[str]:
     if len(loops) != 1:
         fail(fn, "load_image must contain exactly one `for sep in (...)` loop")
     lp = loops[0]
-    if not (isinstance(lp.target, ast.Name) and isinstance(lp.iter, (ast.Tuple, ast.List))):
+    it = lp.iter
+    if isinstance(it, ast.Name):             # a module-level constant tuple, bound once
+        binds = [st for st in tree.body
+                 if (isinstance(st, ast.Assign) and any(isinstance(t, ast.Name) and t.id == it.id for t in st.targets))
+                 or (isinstance(st, ast.AnnAssign) and isinstance(st.target, ast.Name) and st.target.id == it.id)]
+        stores = [n for n in ast.walk(tree) if isinstance(n, ast.Name) and n.id == it.id and isinstance(n.ctx, ast.Store)]
+        if len(binds) != 1 or len(stores) != 1 or binds[0].value is None:
+            fail(lp, "separator constant must be bound exactly once at module level")
+        it = binds[0].value
+    if not (isinstance(lp.target, ast.Name) and isinstance(it, (ast.Tuple, ast.List))):
         fail(lp, "separator loop shape")
     out = []
-    for e in lp.iter.elts:
+    for e in it.elts:
         if not (isinstance(e, ast.Constant) and e.value in DELIMS):
             fail(e, "unknown separator")
         out.append(DELIMS[e.value])
